@@ -18,6 +18,22 @@ built by a construction program) together with an error model and a seed.  On ev
            exception class and, for exactly representable constant error models, U_full; for random
            error models the parameter-level model replays the numpy streams as tapes and must
            reproduce every programmed number.
+
+Besides the single cases there are
+  histories   (section "histories on long-lived objects"): one world of Recks, ErrorModels, distribution objects,
+              circuits and Parameters that live through many steps — the same Reck maps several circuits and the SAME
+              circuit object repeatedly while it is changed in place (Parameter.set, appended components, heralds, the
+              object replaced under the same name), error models are tuned in place (through the Reck's `error_model`
+              property, through the ErrorModel object handed over at construction), re-assigned, distribution objects
+              are shared between quantities / error models / Recks, re-seeded and drawn from between maps; Recks and
+              ErrorModels are created with defaults (argument omitted / None / ErrorModel()) before and after another
+              one is tuned.  After EVERY map the clauses above are evaluated against the harness's own record of the
+              current circuit and the current error model (never read back from the objects), and the result must equal
+              what a FRESH Reck built from that record programs.  A failing history is confirmed and shrunk in forked
+              copies of a process in which no history ever ran (class Pristine), so that a replay is self-contained
+              even when the defect is state that the library keeps per process;
+  processes   the same (circuit, error model, seed) mapped in another interpreter process (different string-hash
+              seed) must give the same numbers.
 """
 
 from __future__ import annotations
@@ -1278,7 +1294,7 @@ def check_map(ctx: Ctx, world: World, rec: Record, st: list, idx: int, c, model:
         c("hist:mapped-circuit-modified-afterwards")
     except Exception:  # noqa: BLE001
         pass
-    return [p + where for p in probs]
+    return [p + where for p in dict.fromkeys(probs)]
 
 
 def run_history(ctx: Ctx, hist: dict, count: bool = False, hook=None, model: bool = True) -> list[str]:
@@ -1460,7 +1476,11 @@ class HistGen:
         if r < 0.45:
             self.steps.append(["rset", rid, what, self.dist(what)])
         elif r < 0.6 and self.ems:
-            self.steps.append(["eset", rng.choice(self.ems), what, self.dist(what)])
+            # through the ErrorModel object itself, preferably one that a Reck was given at construction / assignment
+            used = [s[3] for s in self.steps if s[0] == "rnew" and s[3]] + \
+                   [s[2] for s in self.steps if s[0] == "rassign" and s[2]]
+            eid = rng.choice(used) if used and rng.random() < 0.8 else rng.choice(self.ems)
+            self.steps.append(["eset", eid, what, self.dist(what)])
         elif r < 0.75:
             self.steps.append(["rassign", rid, rng.choice([None, *self.ems]) if self.ems else None])
         elif r < 0.9:
@@ -1510,7 +1530,7 @@ def gen_history(rng, kind: str, max_n: int = 5) -> dict:
         # one or two Recks, error model tuned / re-assigned / shared between maps of the same circuit
         for _ in range(rng.randint(0, 2)):
             g.em()
-        rids = [g.reck() for _ in range(rng.randint(1, 2))]
+        rids = [g.reck(rng.choice(["em", "em", None])) for _ in range(rng.randint(1, 2))]
         cid = g.circuit()
         g.map(rids[0], cid)
         for _ in range(rng.randint(1, 4)):
@@ -1700,7 +1720,10 @@ _PRISTINE: list = []
 
 def pristine() -> Pristine:
     if not _PRISTINE:
+        import atexit
+
         _PRISTINE.append(Pristine())
+        atexit.register(_PRISTINE[0].close)
     return _PRISTINE[0]
 
 
@@ -1769,6 +1792,11 @@ def check_history(ctx: Ctx, hist: dict, sample: bool = False) -> None:
                       "other, finished histories (independent objects) ran before: state leaks between objects",
                       {"case": hist, "problems": probs, "script": history_script(hist)},
                       sig={"kind": kind_of(probs[0])}, found_input=False)
+        return
+    if len(_HIST_REPORTED) >= ctx.max_reports:
+        # replays are written for the first few only: no point in shrinking further ones
+        ctx.count("hist:further-failing-history (not shrunk)")
+        ctx.violation(alone[0], {"case": hist, "problems": alone}, sig={"kind": kind_of(alone[0])})
         return
     small, sprobs = shrink_history(ctx, hist, alone, fresh=True)
     key = json.dumps(small["steps"], sort_keys=True, default=str)
@@ -1867,7 +1895,7 @@ def history_stream(ctx: Ctx) -> None:
         ctx.count("gen:" + h["kind"])
         check_history(ctx, h, sample=i == 0)
     kinds = ["circuit-inplace", "circuit-inplace", "em-inplace", "em-inplace", "defaults", "mixed", "mixed"]
-    for _ in range(ctx.n(70, 600)):
+    for _ in range(ctx.n(100, 800)):
         if ctx.out_of_time():
             break
         kind = rng.choice(kinds)
@@ -2020,7 +2048,10 @@ def run(ctx: Ctx) -> None:
                 "real, sparse, identity, tiny and below-threshold entries), exact Givens/permutation/block-diagonal "
                 "unitaries, heralded unitaries, circuits from the C02 program generator (lossy ones must be rejected); "
                 "error models: default, exact constant, random Gaussian/TopHat, malformed; non-trivial = at least one "
-                "unit cell (n >= 2) or a rejected input; distinct = distinct case description")
+                "unit cell (n >= 2) or a rejected input; distinct = distinct case description; histories = step "
+                "lists on long-lived Reck / ErrorModel / distribution / circuit / Parameter objects with an observation "
+                "after every map (directed corpus first, then random: circuit-inplace, em-inplace, defaults, mixed), "
+                "non-trivial = at least one map; processes = seeded maps repeated in a second interpreter")
     rng = ctx.rng
     pristine()  # forked before anything has been run on the implementation
     self_test(ctx)
